@@ -125,38 +125,192 @@ ARM_SPECS = {
 }
 
 
+
+TASK_GHOST = "Tracked(t): Tracked<&mut Task>"
+
+# census (rely/guarantee, DESIGN 2.3): which functions of the crate call the mutating wrapper methods of ProvisionSharedState
+MUTATORS = ("update_one_state", "reset_one_state", "set_provision_finished")
+ALLOWED_MUTATOR_CALLERS = {"update_provision_state", "reset_provision_state", "provision_timeup"}
+
+
+def census(u, pv):
+    root = os.path.join(u.repo.root, "proxy_agent", "src")
+    pat = re.compile(r"\.\s*(%s)\s*\(" % "|".join(MUTATORS))
+    for dp, dn, fn in os.walk(root):
+        for f in fn:
+            if not f.endswith(".rs"):
+                continue
+            rel = os.path.relpath(os.path.join(dp, f), u.repo.root)
+            if rel in (PV, PW):
+                continue
+            txt = open(os.path.join(dp, f), encoding="utf-8").read()
+            code = "\n".join(l for l in txt.split("\n") if not l.strip().startswith("//"))
+            if pat.search(code):
+                raise Undecided("census: %s calls a mutating ProvisionSharedState method; the rely/guarantee argument of C16 no longer covers every caller" % rel)
+    # inside provision.rs (non-test items only: SrcFile drops cfg(test) items)
+    for it in pv.all_fns():
+        cs = [c for c in it.get("calls", []) if c["kind"] == "method" and c["callee"] in MUTATORS]
+        if cs and it["name"] not in ALLOWED_MUTATOR_CALLERS:
+            raise Undecided("census: provision.rs fn %s calls %s but is not under contract" % (it["path"], cs[0]["callee"]))
+    # inside provision_wrapper.rs only the definitions may mention them
+    pwtxt = open(os.path.join(u.repo.root, PW), encoding="utf-8").read()
+    code = "\n".join(l for l in pwtxt.split("\n") if not l.strip().startswith("//"))
+    if pat.search(code):
+        raise Undecided("census: provision_wrapper.rs calls a mutating wrapper method itself")
+    # the deadline handler has exactly one caller, guarded by the provisioning time-up test
+    kk = open(os.path.join(u.repo.root, "proxy_agent/src/key_keeper.rs"), encoding="utf-8").read()
+    kcode = "\n".join(l for l in kk.split("\n") if not l.strip().startswith("//"))
+    calls = [m.start() for m in re.finditer(r"provision::provision_timeup\s*\(", kcode)]
+    if len(calls) != 1:
+        raise Undecided("census: expected exactly one call of provision::provision_timeup in key_keeper.rs, found %d" % len(calls))
+    before = re.sub(r"\s+", " ", kcode[max(0, calls[0] - 300):calls[0]])
+    if not re.search(r"if !provision_timeup && start\.elapsed\(\)\.as_millis\(\) > PROVISION_TIMEUP_IN_MILLISECONDS \{ $", before):
+        raise Undecided("census: the call of provision_timeup is no longer guarded by the PROVISION_TIMEUP_IN_MILLISECONDS test")
+    for dp, dn, fn in os.walk(root):
+        for f in fn:
+            rel = os.path.relpath(os.path.join(dp, f), u.repo.root)
+            if f.endswith(".rs") and rel not in (PV, "proxy_agent/src/key_keeper.rs"):
+                txt = open(os.path.join(dp, f), encoding="utf-8").read()
+                code = "\n".join(l for l in txt.split("\n") if not l.strip().startswith("//"))
+                if re.search(r"\bprovision_timeup\s*\(", code):
+                    raise Undecided("census: %s calls provision_timeup" % rel)
+    u.rule("census", "mutating ProvisionSharedState methods are called only from provision.rs::{%s}; provision_timeup only from key_keeper.rs behind the time-up test" % ",".join(sorted(ALLOWED_MUTATOR_CALLERS)))
+
+
+def unit_ret(sf, path):
+    """E7 (return value naming) for an `async fn` that returns nothing: `-> (r: ())` is appended to the signature.
+    Probed with Verus 0.2026.09.13: without a named return the postconditions of an async fn are NOT available to the
+    caller after `.await` (they are silently dropped); with `-> (r: ())` they are. Same type for rustc."""
+    it = sf.item(path, "fn")
+    if it["output"] is not None:
+        raise Undecided("%s now has a return type" % path)
+    return [(it["sig"][1], it["sig"][1], " -> (r: ())")]
+
+
+def fmt_e9(sf, it, fnname, idx, arg_rewrite=None):
+    """E9 + E6: redirect the idx-th `format!(LIT, ARG)` (exactly one `{}` and one argument of type String) of function `it`
+    to a generated stub `fn(a0: String) -> String { format!(LIT, a0) }` whose contract is generated from LIT as it is in the
+    tree: r@ == lit0 + a0@ + lit1. The argument expression stays, verbatim, at the call site (verified)."""
+    ms = [m for m in it["macros"] if m["name"] == "format"]
+    ms.sort(key=lambda m: m["span"][0])
+    if idx >= len(ms):
+        raise Undecided("%s: format! #%d not found" % (fnname, idx))
+    a, b = ms[idx]["span"]
+    text = sf.s(a, b)
+    m = re.fullmatch(r'format!\(\s*"((?:[^"\\]|\\.)*)"\s*,\s*(.*?)\s*,?\s*\)', text, re.S)
+    if not m:
+        raise Undecided("%s: format! #%d has an unexpected shape" % (fnname, idx))
+    lit, arg = m.group(1), m.group(2)
+    if lit.count("{}") != 1 or "{" in lit.replace("{}", "") or "}" in lit.replace("{}", ""):
+        raise Undecided("%s: format literal %r is not `text {} text`" % (fnname, lit))
+    l0, l1 = lit.split("{}")
+    if arg_rewrite:
+        arg = arg_rewrite(arg)
+    contract = '    ensures r@ == "%s"@ + a0@ + "%s"@,' % (l0, l1)
+    return (text, None, "a0: String", arg, "String", contract,
+            dict(name="vx_e9_%s_fmt_%d" % (fnname, idx), body='format!("%s", a0)' % lit)), (l0, l1)
+
+
 def build(u):
     u.externs.append("serde_derive")
+    u.features += ["allocator_api", "sized_hierarchy"]
     pv = u.src(PV)
     pw = u.src(PW)
     lg = u.src("proxy_agent/src/common/logger.rs")
     mh = u.src("proxy_agent_shared/src/misc_helpers.rs")
+    err = u.src("proxy_agent/src/common/error.rs")
+    sherr = u.src("proxy_agent_shared/src/error.rs")
+    cfg = u.src("proxy_agent/src/common/config.rs")
+    hp = u.src("proxy_agent/src/common/helpers.rs")
+    kk = u.src("proxy_agent/src/key_keeper.rs")
+    key = u.src("proxy_agent/src/key_keeper/key.rs")
+    ar = u.src("proxy_agent/src/proxy/authorization_rules.rs")
+    ps = u.src("proxy_agent/src/proxy/proxy_summary.rs")
+    er = u.src("proxy_agent/src/telemetry/event_reader.rs")
+    ags = u.src("proxy_agent_shared/src/proxy_agent_aggregate_status.rs")
+    el = u.src("proxy_agent_shared/src/telemetry/event_logger.rs")
+    kkw = u.src("proxy_agent/src/shared_state/key_keeper_wrapper.rs")
+    tw = u.src("proxy_agent/src/shared_state/telemetry_wrapper.rs")
+    asw = u.src("proxy_agent/src/shared_state/agent_status_wrapper.rs")
+    census(u, pv)
     for f in ("str_axioms.rs", "ext_types.rs", "std_string.rs"):
         u.raw(open(os.path.join(COMMON, f)).read())
     consts = take_bitflags(u, pv, "vx_ext_provision_flags")
     u.raw_file("deps.rs")
     u.raw_file("spec.rs")
+    u.raw_file("task.rs")
 
-    # ---- callee stubs -------------------------------------------------------------------------------------
-    u.raw("""
-// a value read from the wall clock (OffsetDateTime::now_utc().unix_timestamp_nanos()); ASSUMED > 0 (clock after 1970)
-pub uninterp spec fn clock_reading(t: i128) -> bool;
-""")
+    # ---- types and callee stubs -----------------------------------------------------------------------------
     with u.mod("proxy_agent_shared"):
-        with u.mod("misc_helpers"):
+        with u.mod("error"):
+            u.take_ext(sherr, ["Error", "ParseVersionErrorType", "CommandErrorType"], "vx_ext_shared_error")
+        with u.mod("result", uses="use super::error::Error;"):
+            u.raw("pub type Result<T> = core::result::Result<T, Error>;")
+        with u.mod("logger"):
+            u.raw("pub type LoggerLevel = log::Level;")
+        with u.mod("misc_helpers", uses="use super::result::Result;\nuse std::path::{Path, PathBuf};"):
             u.take_fn(mh, "get_date_time_unix_nano", external_body=True, contract="""
         ensures clock_reading(r) && r > 0,
 """)
+            u.take_fn(mh, "get_date_time_string_with_milliseconds", external_body=True)
+            u.take_fn(mh, "try_create_folder", external_body=True)
+        with u.mod("proxy_agent_aggregate_status", uses="use std::collections::HashMap;"):
+            u.take(ags, "ModuleState", "enum")
+            u.take(ags, "ProxyAgentDetailStatus", "struct")
+            u.take(ags, "ProxyConnectionSummary", "struct")
+        with u.mod("telemetry"):
+            with u.mod("event_logger", uses="use log::Level;"):
+                u.take_fn(el, "write_event", external_body=True, ret="")
     with u.mod("common"):
+        with u.mod("error"):
+            u.take_ext(err, ["Error", "HyperErrorType", "WireServerErrorType", "KeyErrorType", "AclErrorType", "BpfErrorType"], "vx_ext_error", uses="use http::{uri::InvalidUri, StatusCode};")
+        with u.mod("result", uses="use super::error::Error;"):
+            u.raw("pub type Result<T> = core::result::Result<T, Error>;")
         with u.mod("logger"):
-            for f in ("write_warning", "write_error"):
+            u.take(lg, "AGENT_LOGGER_KEY", "const")
+            for f in ("write_warning", "write_error", "write_serial_console_log"):
                 u.take_fn(lg, f, external_body=True, ret="")
-    with u.mod("provision"):
-        u.raw("pub use crate::ProvisionFlags;")
-
-    # ---- (1) the actor: every arm of the `match action` in ProvisionSharedState::start_new (E5b) -----------
+        with u.mod("config", uses="use std::path::PathBuf;"):
+            u.take_fn(cfg, "get_keys_dir", external_body=True)
+        with u.mod("helpers"):
+            u.take_fn(hp, "xml_escape", external_body=True)
+    with u.mod("key_keeper"):
+        u.take(kk, "DISABLE_STATE", "const")
+        u.take(kk, "UNKNOWN_STATE", "const")
+        with u.mod("key", uses="use std::collections::HashMap;"):
+            u.take(key, "Key", "struct", extra_attrs="#[verifier::external_body]")
+            u.take(key, "Privilege", "struct")
+            u.take(key, "Identity", "struct")
+    with u.mod("proxy"):
+        with u.mod("authorization_rules", uses="use crate::key_keeper::key::{Identity, Privilege};\nuse std::collections::{HashMap, HashSet};"):
+            u.take(ar, "AuthorizationMode", "enum")
+            u.take(ar, "ComputedAuthorizationItem", "struct")
+        with u.mod("proxy_summary", uses="use std::path::PathBuf;"):
+            u.take(ps, "ProxySummary", "struct")
+    with u.mod("telemetry"):
+        with u.mod("event_reader"):
+            u.take(er, "VmMetaData", "struct")
     with u.mod("shared_state"):
-        with u.mod("provision_wrapper", uses="use crate::common::logger;\nuse crate::provision::ProvisionFlags;\nuse crate::proxy_agent_shared::misc_helpers;\nuse tokio::sync::{mpsc, oneshot};"):
+        with u.mod("key_keeper_wrapper", uses="use crate::common::result::Result;"):
+            u.take_ext(kkw, ["KeyKeeperAction", "KeyKeeperSharedState"], "vx_ext_kkw", uses="use crate::proxy::authorization_rules::ComputedAuthorizationItem;\nuse crate::key_keeper::key::Key;\nuse std::sync::Arc;\nuse tokio::sync::{mpsc, oneshot, Notify};")
+            with u.impl_(kkw, "KeyKeeperSharedState"):
+                u.take_fn(kkw, "KeyKeeperSharedState::get_current_secure_channel_state", external_body=True, ghost=TASK_GHOST, contract="""
+        ensures *final(t) == (Task { last_channel: match r { Ok(s) => Some(s@), Err(_) => None }, ..*old(t) }),
+""")
+                u.take_fn(kkw, "KeyKeeperSharedState::notify", external_body=True)
+        with u.mod("telemetry_wrapper"):
+            u.take_ext(tw, ["TelemetryAction", "TelemetrySharedState"], "vx_ext_tw", uses="use crate::telemetry::event_reader::VmMetaData;\nuse tokio::sync::{mpsc, oneshot};")
+        with u.mod("agent_status_wrapper", uses="use crate::proxy_agent_shared::proxy_agent_aggregate_status::{ModuleState, ProxyAgentDetailStatus, ProxyConnectionSummary};"):
+            u.take(asw, "AgentStatusModule", "enum")
+            u.take_ext(asw, ["AgentStatusAction", "AgentStatusSharedState"], "vx_ext_asw", uses="use crate::shared_state::agent_status_wrapper::AgentStatusModule;\nuse crate::proxy::proxy_summary::ProxySummary;\nuse crate::proxy_agent_shared::proxy_agent_aggregate_status::{ModuleState, ProxyAgentDetailStatus, ProxyConnectionSummary};\nuse tokio::sync::{mpsc, oneshot};")
+            with u.impl_(asw, "AgentStatusSharedState"):
+                u.take_fn(asw, "AgentStatusSharedState::get_module_status", external_body=True, ghost=TASK_GHOST, contract="""
+        ensures *final(t) == (Task { msgs: old(t).msgs.insert(module, r.message@), ..*old(t) }),
+""")
+
+        # ---- (1) the actor: every arm of the `match action` in ProvisionSharedState::start_new (E5b) -----------
+        with u.mod("provision_wrapper", uses="use crate::common::logger;\nuse crate::common::result::Result;\nuse crate::provision::ProvisionFlags;\nuse crate::proxy_agent_shared::misc_helpers;\nuse tokio::sync::{mpsc, oneshot};"):
+            u.take_ext(pw, ["ProvisionAction", "ProvisionSharedState"], "vx_ext_pw", uses="use crate::vx_ext_provision_flags::ProvisionFlags;\nuse tokio::sync::{mpsc, oneshot};")
             it = pw.item("ProvisionSharedState::start_new", "fn")
             if len(it["matches"]) != 1:
                 raise Undecided("start_new: expected exactly one match (the actor dispatch), found %d" % len(it["matches"]))
@@ -172,13 +326,87 @@ pub uninterp spec fn clock_reading(t: i128) -> bool;
                     raise Undecided("start_new: two arms for %s" % v)
                 seen.add(v)
                 name, params, rty, pre, tail, contract = ARM_SPECS[v]
-                # the variables bound by the pattern must be exactly the non-state parameters (rustc checks the rest:
-                # the slice only compiles if it uses no actor local other than the one passed in -> frame for the others)
                 lo, hi = arm["body"][0] + 1, arm["body"][1] - 1
                 if pw.s(arm["body"][0], arm["body"][0] + 1) != "{":
                     raise Undecided("start_new: arm %s is not a block" % v)
+                # rustc checks the rest: the slice only compiles if it uses no actor local other than the one passed
+                # in, which is the frame condition for the other two actor locals
                 u.slice_fn(pw, "ProvisionSharedState::start_new", name, lo, hi, params, ret_type=rty, contract=contract,
                            pre_body="broadcast use axiom_pf_bits_of, axiom_pf_of_bits, axiom_fmt_pf;\n" + pre + "\n", tail=tail + "\n" if tail else "",
                            what="(actor arm ProvisionAction::%s)" % v)
             if seen != set(ARM_SPECS):
                 raise Undecided("start_new: actor arms %s missing" % sorted(set(ARM_SPECS) - seen))
+
+            # ---- the wrapper methods: one message, one reply. ASSUMED contracts = what that single atomic actor operation
+            #      guarantees for SOME actor state (the state is havocked by other tasks between two awaits)
+            with u.impl_(pw, "ProvisionSharedState"):
+                u.take_fn(pw, "ProvisionSharedState::update_one_state", external_body=True, ghost=TASK_GHOST, contract="""
+        ensures
+            *final(t) == old(t).did(ActorOp::Report { s: pf_bits(state), reply: flags_reply(r) }).saw(flags_reply(r)),
+            r is Ok ==> pf_bits(r->Ok_0) & pf_bits(state) == pf_bits(state),   // reply = st | s for the actor state st at that instant
+""")
+                u.take_fn(pw, "ProvisionSharedState::reset_one_state", external_body=True, ghost=TASK_GHOST, contract="""
+        ensures
+            *final(t) == old(t).did(ActorOp::Reset { s: pf_bits(state), reply: flags_reply(r) }).saw(flags_reply(r)),
+            r is Ok ==> pf_bits(r->Ok_0) & pf_bits(state) == 0,                // reply = st & !s
+""")
+                u.take_fn(pw, "ProvisionSharedState::get_state", external_body=True, ghost=TASK_GHOST, contract="""
+        ensures
+            *final(t) == (Task { reads: old(t).reads.push(flags_reply(r)), ..*old(t) }).saw(flags_reply(r)),
+""")
+                u.take_fn(pw, "ProvisionSharedState::set_provision_finished", external_body=True, ghost=TASK_GHOST, contract="""
+        requires
+            finished ==> old(t).seen_all_ready || old(t).deadline_passed,  // @C16.set_provision_finished.only_after_all_ready_or_deadline
+        ensures
+            *final(t) == old(t).did(ActorOp::SetFinished { finished, reply: tick_reply(r) }),
+            r is Ok ==> (finished ==> r->Ok_0 > 0 && clock_reading(r->Ok_0)) && (!finished ==> r->Ok_0 == 0),
+""")
+                u.take_fn(pw, "ProvisionSharedState::get_provision_finished", external_body=True, ghost=TASK_GHOST, contract="""
+        ensures
+            *final(t) == (Task { last_tick: tick_reply(r), ..*old(t) }),
+""")
+                u.take_fn(pw, "ProvisionSharedState::get_event_log_threads_initialized", external_body=True)
+                u.take_fn(pw, "ProvisionSharedState::set_event_log_threads_initialized", external_body=True)
+
+    # ---- (2) provision.rs -------------------------------------------------------------------------------------
+    build_provision(u, pv, consts)
+
+
+def build_provision(u, pv, consts):
+    uses = """use crate::common::{config, helpers, logger};
+use crate::key_keeper::{DISABLE_STATE, UNKNOWN_STATE};
+use crate::shared_state::agent_status_wrapper::{AgentStatusModule, AgentStatusSharedState};
+use crate::shared_state::key_keeper_wrapper::KeyKeeperSharedState;
+use crate::shared_state::provision_wrapper::ProvisionSharedState;
+use crate::shared_state::telemetry_wrapper::TelemetrySharedState;
+use crate::proxy_agent_shared::logger::LoggerLevel;
+use crate::proxy_agent_shared::telemetry::event_logger;
+use crate::proxy_agent_shared::{misc_helpers, proxy_agent_aggregate_status};
+use std::path::PathBuf;
+use std::time::Duration;
+use tokio_util::sync::CancellationToken;"""
+    PRE = "broadcast use axiom_fmt_error, axiom_pf_bits_of, axiom_pf_of_bits;\n"
+    with u.mod("provision", uses=uses + "\npub use crate::ProvisionFlags;"):
+        for c in ("PROVISION_TAG_FILE_NAME", "STATUS_TAG_TMP_FILE_NAME", "STATUS_TAG_FILE_NAME"):
+            u.take(pv, c, "const")
+        u.take(pv, "ProvisionStateInternal", "struct")
+        with u.impl_(pv, "ProvisionStateInternal"):
+            u.take_fn(pv, "ProvisionStateInternal::is_secure_channel_latched", pre_body="proof { lits_channel(); }", contract="""
+        ensures r == latched(self.key_keeper_secure_channel_state@),  // @C16.is_secure_channel_latched.neither_disabled_nor_unknown
+""")
+        u.take_fn(pv, "start_event_threads", external_body=True, ret="")
+        u.take_fn(pv, "write_provision_state", external_body=True, ret="", ghost=TASK_GHOST, sig_edits=unit_ret(pv, "write_provision_state"), contract="""
+        ensures final(t).same_knowledge(*old(t)),
+""")
+        u.take_fn(pv, "update_provision_state", ghost=TASK_GHOST, pre_body=PRE, sig_edits=unit_ret(pv, "update_provision_state"),
+                  ghost_calls=[("update_one_state", None, "Tracked(t)"), ("set_provision_finished", None, "Tracked(t)"), ("write_provision_state", None, "Tracked(t)")],
+                  e9=flag_e9("update_provision_state", consts, ["ALL_READY"]),
+                  hints=[("provision_state.contains(", None, "before", "proof { lemma_contains_all_ready(pf_bits(provision_state)); }")],
+                  contract="""
+        ensures
+            final(t).ops.len() > old(t).ops.len() && final(t).ops.subrange(0, old(t).ops.len() as int) =~= old(t).ops,
+            final(t).ops[old(t).ops.len() as int] is Report && final(t).ops[old(t).ops.len() as int]->Report_s == pf_bits(state),  // @C16.update_provision_state.reports_its_own_flag
+            forall|i: int| old(t).ops.len() < i < final(t).ops.len() ==> final(t).ops[i] is SetFinished && final(t).ops[i]->SetFinished_finished
+                && reply_all_ready(final(t).ops[old(t).ops.len() as int]->Report_reply),  // @C16.update_provision_state.finished_only_if_reply_has_all_three
+            final(t).deadline_passed == old(t).deadline_passed,
+""")
